@@ -156,12 +156,17 @@ pub struct EntityCfg {
     pub split: bool,
     /// the modification time lies BEFORE the epoch, mtime_ns being its distance (harness-level checks only)
     pub mtime_before_epoch: bool,
+    /// add_headers adds one more header whose value grows with every call (a setting reloaded at run time,
+    /// an Age that counts up): whatever the entity adds, it must be asked once per response
+    pub volatile_hdrs: bool,
 }
 
 #[derive(Default)]
 pub struct Log {
     pub calls: Vec<(u64, u64)>,
     pub streams: Vec<Vec<Ev>>,
+    /// how often add_headers was called (an entity with `volatile_hdrs` answers differently each time)
+    pub hdr_calls: usize,
 }
 
 pub struct ScriptedEntity {
@@ -207,6 +212,12 @@ impl http_serve::Entity for ScriptedEntity {
         Box::pin(ScriptStream { evs: evs.into(), split: self.cfg.split })
     }
     fn add_headers(&self, h: &mut HeaderMap) {
+        if self.cfg.volatile_hdrs {
+            let mut lg = self.log.lock().unwrap();
+            let k = lg.hdr_calls;
+            lg.hdr_calls += 1;
+            h.append(HeaderName::from_static("x-volatile"), HeaderValue::from_bytes(&vec![b'v'; 1 + 25 * k]).unwrap());
+        }
         for (k, v) in &self.cfg.hdrs {
             h.append(
                 HeaderName::from_bytes(k.as_bytes()).unwrap(),
